@@ -229,7 +229,14 @@ def _solve_for_vector(run: Run, mod, f) -> None:
             diff = normalize(op("sub", res[1], res[2]))
             expr = total(terms)
             if reduce_factor:
-                wants = [normalize(op("div", expr, c)) for v, c in terms if v == atomic]
+                own = [c for v, c in terms if v == atomic]
+                wants = [normalize(op("div", expr, c)) for c in own]
+                if len(own) > 1:
+                    # the unknown in several terms: dividing by its gathered coefficient is an equivalent equation as well (and the only one that is a solution)
+                    tot = own[0]
+                    for c in own[1:]:
+                        tot = op("add", tot, c)
+                    wants.append(normalize(op("div", expr, tot)))
             else:
                 wants = [normalize(op("neg", expr))]
             if not any(same(diff, w_) for w_ in wants):
